@@ -144,6 +144,61 @@ def check_domain(ctx: Check, tree: Tree) -> None:
         )
 
 
+# --------------------------------------------------------------------------- R-KINDOMAIN
+
+COMBINATORICS = "ampform.helicity::_perform_combinatorics"
+ADAPTER_FEEDS = {"register_transition", "register_topology", "permutate_registered_topologies"}
+
+
+def check_kinematic_domain(ctx: Check, tree: Tree) -> None:
+    """The amplitude of a transition is also formulated for its identical-particle
+    permutations (`_perform_combinatorics`), whose topologies differ from the ones in the
+    reaction; their angle / mass symbols are only defined if those topologies are
+    registered in the adapter that produces the kinematic variables."""
+    builder = tree.cls(BUILDER)
+    users = []
+    for m in builder.methods.values():
+        for call, callee in tree.calls_in(m, nested=True):
+            if callee == COMBINATORICS:
+                users.append((m, call))
+    if not users:
+        ctx.info("R-KINDOMAIN", tree.loc(builder.node), "the builder no longer symmetrises over identical particles itself: nothing to register")
+        return
+    # is the symmetrised transition what the amplitude is formulated for?
+    feeds = []
+    for m in builder.methods.values():
+        rd = RD(m.node)
+        for node in walk_function(m.node):
+            if not (isinstance(node, ast.Call) and isinstance(node.func, ast.Attribute) and node.func.attr in ADAPTER_FEEDS):
+                continue
+            recv = unparse(node.func.value)
+            if "adapter" not in recv:
+                continue
+            if node.func.attr == "permutate_registered_topologies":
+                feeds.append((m, node, "permutes every registered topology"))
+                continue
+            srcs = []
+            for a in node.args:
+                srcs.append(unparse(a))
+                srcs += [unparse(d.value) for d in rd.closure(rd.uses(a)) if d.value is not None]
+            if any("_perform_combinatorics(" in t for t in srcs):
+                feeds.append((m, node, "registers the symmetrised transitions"))
+    m0, call0 = users[0]
+    key = f"{BUILDER}::symmetrised-topologies-not-registered"
+    if feeds:
+        fm, fnode, how = feeds[0]
+        ctx.ok("R-KINDOMAIN", tree.loc(fnode), f"{fm.qual}: `{unparse(fnode)[:60]}` {how}, so the kinematic variables cover the topologies of `{unparse(call0)}`")
+    else:
+        ctx.violation(
+            "R-KINDOMAIN", key, tree.loc(call0),
+            f"{m0.qual}: amplitudes are formulated for every graph of `{unparse(call0)}` (identical-particle permutations), but no method of the builder registers those permuted topologies in its adapter",
+            {
+                "why": "angle and mass symbols are named from the topology of the (permuted) transition; HelicityAdapter only knows the topologies of reaction.transitions, so the symbols of a permuted topology are neither kinematic variables nor parameters",
+                "observed": "J/psi -> gamma pi0 pi0 via omega(782): phi_01, phi_0^01, theta_01, theta_0^01 are free symbols of model.expression without definition unless the user calls adapter.permutate_registered_topologies()",
+            },
+        )
+
+
 # --------------------------------------------------------------------------- R-SYMPAIR
 
 FAMILY_MODULES = ("ampform.helicity", "ampform.kinematics")
@@ -413,6 +468,7 @@ def check_backsubstitution(ctx: Check, tree: Tree) -> None:
 def run(ctx: Check, tree: Tree) -> None:
     ctx.decided += [
         "R-BACKSUB: alignment-angle definitions are back-substituted with the completed kinematic variables before they become kinematic variables (structural part of clause d)",
+        "R-KINDOMAIN: the topologies of the identical-particle permutations for which amplitudes are formulated are registered in the adapter that produces the kinematic variables",
         "R-DOMAIN: some store into the amplitude table handed to HelicityModel is keyed from the summation domain of the intensity (or the consumer defaults leftover amplitude symbols)",
         "R-SYMPAIR: every symbol family that is constructed at several sites of helicity/kinematics agrees in kind and assumptions; single producers stay single; Wigner-angle suffixes come from get_helicity_suffix",
         "R-XSTORE: on every path through formulate a mass symbol stored as parameter is removed from / cannot be in the kinematic variables",
@@ -424,6 +480,7 @@ def run(ctx: Check, tree: Tree) -> None:
     ]
     ctx.assumptions += ["SymPy symbols with equal names and different assumptions are different objects", "HelicityAdapter.create_expressions defines every invariant-mass symbol of the registered topologies"]
     ctx.section(check_domain, ctx, tree)
+    ctx.section(check_kinematic_domain, ctx, tree)
     ctx.section(check_sympairs, ctx, tree)
     ctx.section(check_xstore, ctx, tree)
     ctx.section(check_create, ctx, tree)
